@@ -33,6 +33,7 @@ EXPECT = {
     "R-OWN.borrow": [("aliasing-constructor", "CtlBorrow::CtlBorrow"), ("custom-deleter", "CtlBorrow2::CtlBorrow2")],
     "R-API.param": [("const-ref-to-forwarding-ref", "ctl_api_param")],
     "R-LIFE.seq": [("moved-and-read-in-one-call", "ctl_moved_and_read")],
+    "R-OWN.fwdmove": [("move-of-forwarding-reference", "ctl_fwd_move")],
     "R-EX.init": [("size-only-eigen-matrix", "ctl_eigen_uninit"), ("size-only-eigen-member", "CtlEigenMember::CtlEigenMember")],
 }
 
@@ -71,6 +72,11 @@ def _run_all():
         if any(v["rule"] == "R-OWN.borrow" and "OkOwning" in v["function"] for v in c.violations):
             raise AnalysisBroken("R-OWN.borrow fires on an owning make_shared")
         r_small.r_arg_sequence(c, [u], lambda f: "vt_control" in f.qn)
+        r_small.r_forward_move(c, [u], lambda f: "vt_control" in f.qn)
+        if any(v["rule"] == "R-OWN.fwdmove" and "ok_forwarded" in v["function"] for v in c.violations):
+            raise AnalysisBroken("R-OWN.fwdmove fires on std::forward")
+        if sum(1 for v in c.violations if v["rule"] == "R-OWN.fwdmove") != 1:
+            raise AnalysisBroken("R-OWN.fwdmove must fire exactly once on the controls (the lvalue instantiation of ctl_fwd_move)")
         saved2 = list(C.LIB_EXTRA)
         C.LIB_EXTRA.append(os.path.join(C.DRIVERS, "controls_eigen.cpp"))
         ue = F.load("controls_eigen")
